@@ -570,3 +570,66 @@ func ZZ_C03_Center() {
 	}
 	zz.AssertNear(mn+mx, 0, "Center: x extent symmetric about the origin")
 }
+
+// weld by position: surviving corners stay in their rounding cell, triangles that do not collapse survive in
+// order, and every attribute of a welded vertex comes from the first vertex of its class.
+func ZZ_C03_Weld() {
+	PosMode = 3
+	V := 1 + zz.Choose("V", zz.Bound("V"))
+	T := zz.Choose("T", zz.Bound("T")+1)
+	idx := make([]int, 3*T)
+	for i := range idx {
+		idx[i] = zz.Choose(fmt.Sprintf("idx[%d]", i), V)
+	}
+	pos := make([]vector3.Float64, V)
+	tag := make([]float64, V)
+	for i := 0; i < V; i++ {
+		pos[i] = symPos(fmt.Sprintf("pos[%d]", i))
+		tag[i] = zz.Float64(fmt.Sprintf("tag[%d]", i))
+	}
+	m := modeling.NewTriangleMesh(idx).SetFloat3Attribute(modeling.PositionAttribute, pos).SetFloat1Attribute(atrV1, tag)
+	zz.Reach("input")
+	out := m.WeldByFloat3Attribute(modeling.PositionAttribute, 1)
+	cell := func(v vector3.Float64) modeling.VectorInt { return modeling.Vector3ToInt(v, 1) }
+	// first vertex of every class
+	first := make([]int, V)
+	for i := 0; i < V; i++ {
+		first[i] = i
+		for j := i - 1; j >= 0; j-- {
+			if cell(pos[j]) == cell(pos[i]) {
+				first[i] = j
+			}
+		}
+	}
+	type corner struct {
+		cell modeling.VectorInt
+		tag  uint64
+	}
+	var want []corner
+	for t := 0; t < T; t++ {
+		a, b, c := idx[3*t], idx[3*t+1], idx[3*t+2]
+		ca, cb, cc := cell(pos[a]), cell(pos[b]), cell(pos[c])
+		if ca == cb || ca == cc || cb == cc {
+			continue // collapses
+		}
+		for _, v := range []int{a, b, c} {
+			want = append(want, corner{cell(pos[v]), math.Float64bits(tag[first[v]])})
+		}
+	}
+	oi := out.Indices()
+	zz.Assert(oi.Len() == len(want), "Weld: exactly the non-collapsing triangles survive")
+	if oi.Len() != len(want) || len(want) == 0 {
+		return
+	}
+	op, ot := out.Float3Attribute(modeling.PositionAttribute), out.Float1Attribute(atrV1)
+	for k := range want {
+		v := oi.At(k)
+		zz.Assert(v >= 0 && v < op.Len(), "Weld: index in range")
+		if !(v >= 0 && v < op.Len()) {
+			return
+		}
+		zz.Assert(cell(op.At(v)) == want[k].cell, "Weld: a surviving corner stays in its rounding cell, in order")
+		zz.Assert(math.Float64bits(ot.At(v)) == want[k].tag, "Weld: attributes come from the first vertex of the class")
+	}
+	zz.Reach("checked")
+}
